@@ -409,9 +409,30 @@ fn breaking_rev(rng: &mut Rng, fam: &Family, base: usize, kind: BreakKind, bi: u
     let b = &fam.revs[base];
     let mut methods = b.methods.clone();
     // victim: the baseline method (always present, plain prim/String signature)
-    let vi = methods.iter().position(|m| m.class == "base").expect("base method");
+    let mut vi = methods.iter().position(|m| m.class == "base").expect("base method");
+    let mut kind = kind;
+    if kind == BreakKind::ClosureArgsChanged {
+        // victim: the first method taking a closure
+        match methods.iter().position(|m| m.args.iter().any(|a| matches!(a.kind, ArgKind::DynFn(_) | ArgKind::DynFnMut(_) | ArgKind::BoxFn { .. }))) {
+            Some(i) => vi = i,
+            None => kind = BreakKind::ArgCountChanged,
+        }
+    }
     let victim = methods[vi].name.clone();
     match kind {
+        BreakKind::ClosureArgsChanged => {
+            let a = methods[vi].args.iter_mut().find(|a| matches!(a.kind, ArgKind::DynFn(_) | ArgKind::DynFnMut(_) | ArgKind::BoxFn { .. })).unwrap();
+            let sig = match &mut a.kind {
+                ArgKind::DynFn(s) | ArgKind::DynFnMut(s) => s,
+                ArgKind::BoxFn { sig, .. } => sig,
+                _ => unreachable!(),
+            };
+            if sig.args.is_empty() {
+                sig.args.push(FnArg { ty: DTy::Prim(Prim::U32), by_ref: false });
+            } else {
+                sig.args.pop();
+            }
+        }
         BreakKind::MethodRemoved => {
             methods.remove(vi);
         }
@@ -621,7 +642,7 @@ pub fn batch_stats(fams: &[Family]) -> BTreeMap<String, usize> {
 pub fn gen_batch(seed: u64, scale: usize) -> Batch {
     let mut fixed = Rng::new(0x5AFE_AB1);
     let mut seeded = Rng::new(seed.wrapping_mul(0x9E37_79B9_7F4A_7C15) ^ 0xAB1_D1CE);
-    let all_breaks = [BreakKind::MethodRemoved, BreakKind::ArgCountChanged, BreakKind::ArgTypeChanged, BreakKind::RetTypeChanged];
+    let all_breaks = [BreakKind::MethodRemoved, BreakKind::ArgCountChanged, BreakKind::ArgTypeChanged, BreakKind::RetTypeChanged, BreakKind::ClosureArgsChanged];
     let mut fams = vec![];
     let mut idx = 0;
     let mut push = |rng: &mut Rng, o: FamOpts, fams: &mut Vec<Family>| {
@@ -655,8 +676,8 @@ pub fn gen_batch(seed: u64, scale: usize) -> Batch {
         if s == 0 {
             push(&mut seeded, FamOpts { n_revs: 2, async_trait: true, send_sync: true, tag: "async_trait", ..base.clone() }, &mut fams);
         }
-        let k1 = all_breaks[seeded.below(4)];
-        let k2 = all_breaks[seeded.below(4)];
+        let k1 = all_breaks[seeded.below(all_breaks.len())];
+        let k2 = all_breaks[seeded.below(all_breaks.len())];
         let n = seeded.range(1, 3);
         push(&mut seeded, FamOpts { n_revs: n, breaking: vec![k1, k2], tag: "breaking", ..base.clone() }, &mut fams);
     }
